@@ -440,6 +440,11 @@ def all_cases(tier):
     # graphs of 10^5 nodes: work that is linear per node but touches a container of all nodes (a list shifted on every insertion)
     # stays below the margins at 20 000 nodes and shows at 160 000
     out.append({"kind": "cputime", "shape": "chain_from_many_leaves", "n": 40000, "budget_s": 600})     # ~35 s of CPU on the unchanged tree
+    if tier == "thorough":
+        # a small quadratic term next to a large linear one: per-operation cost (a + b n) only passes the 2.5x margin between n and 4n
+        # once b n > a - for a C-level list shift that is beyond 10^5 nodes (seed c17p: margin reached or not at 40 000 depending on
+        # the machine's memory speed)
+        out.append({"kind": "cputime", "shape": "chain_from_many_leaves", "n": 100000, "budget_s": 1500})
     for shape, n in (("chain", 1500), ("chain", 6000), ("tree", 3000)):
         out.append({"kind": "heap", "shape": shape, "n": n})
     return out + repeat_cases()
